@@ -64,6 +64,17 @@ CHECKS = {
         'proves that the dtype-level model of _truediv_raw + set_val returns exactly that code for operands of equal signedness up to 26 bits. PARTIAL: mixed signedness (float64 floor_divide), the repr method (rounded double quotient), '
         'and the model-level // and % are not theorems; the correspondence run checks the property relations with exact rationals on the implementation output (neighbour relation, floor, modulo, reconstruction, formats) and compares the model on every case.',
    design='7/C09', technique='Coq proof of the division laws and bounds + partial model theorem + differential correspondence'),
+
+ 'C16': dict(
+   text='Proof: for any two formats up to 52 bits (any signedness / n_frac mix) each of the six relations computed on get_val() equals the relation between the exact stored values (C16_compare_fxp, C16_compare_number: float comparison of exact doubles = '
+        'dyadic comparison); get_val is exactly code*2^-n_frac; astype(int) is the floor of the value for negative, zero and positive n_frac (through the float floor_divide branch: C16_int_is_floor with rnd64_shifted); bool; uraw = code mod 2^n_word for every word length. '
+        'Tie: adjacent values across format pairs up to 24 bits (scalars, arrays, plain numbers), every code of every format up to 6/8 bits for the conversions, exact-rational relations on the implementation output and the model.',
+   design='7/C16', technique='Coq proof (exact double = dyadic semantics) + differential correspondence'),
+ 'C17': dict(
+   text='Proof: C17_store - when the transformed input (v-b)/s computed in float64 is an exact double t of the core domain (the property\'s own premise), storing v stores Spec.quantize of t with exactly the flags of t; C17_value_only: the result depends only on the value of t '
+        '(representation independence of rounding); C17_read_uses_exact_value and C17_limits: reading and upper/lower/precision are the affine images of the exact unscaled quantities. Tie: formats up to 16 bits, all modes, dyadic scales (incl. negative) and biases, float / Python-int / int-array / int-list carriers, '
+        'the premise is checked per case with exact rationals; val, get_val, limits, flags, best-size construction compared with Spec and model.',
+   design='7/C17', technique='Coq proof (affine wrapper reduces to C01) + differential correspondence'),
 }
 NA_REASON = 'check not built yet (work in progress; see DESIGN.md section 10 order of work)'
 def main():
